@@ -154,8 +154,11 @@ def r_nodup(ctx):
         return [(tb, 0) for bbk in pb.live_blocks() if pb.term(bbk)['k'] == 'switch' for (tb, lab) in pb.succ(bbk)
                 if (lambda lit: lit and lit[0] == 'in' and lit[1] == entt and lit[2] == frozenset([name_]))(M.edge_literal(pb, bbk, lab))]
     vac, occ = arm('Vacant'), arm('Occupied')
-    pa = call_points(pb, 'process_action')
-    if not (ctx.floor('R11.c', 'vacant-arm', pb, len(vac), 1, 'Vacant arm') and ctx.floor('R11.e', 'occupied-arm', pb, len(occ), 1, 'Occupied arm') and ctx.floor('R11.c', 'process_action', pb, len(pa), 1, 'process_action call')):
+    # process_action is a soft anchor (inlined into push and pop on every tree): "the arm is over" = the dispatch to bubble_up /
+    # bubble_down, or the end of the function
+    pa = call_points(pb, 'bubble_up', 'bubble_down') + ret_points(pb)
+    if not (ctx.floor('R11.c', 'vacant-arm', pb, len(vac), 1, 'Vacant arm') and ctx.floor('R11.e', 'occupied-arm', pb, len(occ), 1, 'Occupied arm') and
+            ctx.floor('R11.c', 'process_action', pb, len(call_points(pb, 'bubble_up')), 1, 'dispatch to bubble_up in push')):
         return
     # vacant: exactly one heap entry, position recorded, key inserted, slot filled, bubble-up requested
     hp = [(bb, t) for (bb, t) in pb.calls_to('push') if _nd_field(pb.origin.operand(t['args'][0], pb.term_point(bb)), 'heap')]
@@ -230,6 +233,8 @@ def r_nodup(ctx):
         ok2 = bool(bu)
         for (bbk, lab) in cut:
             tb = [t_ for (t_, l) in pb.succ(bbk) if l == lab][0]
+            if not any(q in pb.reach([(tb, 0)]) for q in bu):
+                continue        # a later test of the same fact (the dispatch on the action that was built): the decision is upstream
             r = pb.reach([(tb, 0)], avoid=bu)
             ok2 = ok2 and not any(p in r for p in pa)
         for (bb, i) in bu:
@@ -364,16 +369,7 @@ def r_nodup(ctx):
     bd = aggr_assigns(qb, 'Action', 'BubbleDown')
     nonempty = lambda atoms, lit: any(empty_lit(a_, lambda x: _nd_field(x, 'heap'), empty=False) or opt_is(a_, first_call, 'Some') for a_ in atoms)
     direct = [(bb, t) for (bb, t) in qb.calls_to('bubble_down')]
-    if good and bd:
-        # spelling 1: an Action::BubbleDown(new root) handed to process_action
-        v = qb.origin.rvalue(bd[0][2]['rv'], (bd[0][0], bd[0][1]))
-        good = new_root(v)
-        ok, cut, bad_ = M.guarded(qb, [(bd[0][0], bd[0][1])], nonempty)
-        good = good and ok
-        pa_ = call_points(qb, 'process_action')
-        r = qb.reach(qb.after(srp), avoid=pa_)
-        good = good and bool(pa_) and not any(p in r for p in ret_points(qb))
-    elif good and direct:
+    if good and direct:
         # spelling 2: bubble_down(new root) called directly, on every non-empty path after the removal
         (dbb, dt) = direct[0]
         v = qb.origin.operand(dt['args'][1], qb.term_point(dbb))
@@ -434,20 +430,24 @@ def r_nodup(ctx):
             return isinstance(t, tuple) and t[0] == 'index' and _nd_field(t[1], 'nodes') and M.is_field(t[2], '0') and isinstance(t[2][1], tuple) and t[2][1][0] == 'index' and _nd_field(t[2][1][1], 'heap') and M.is_param(t[2][1][2], index=i)
         good = at(rt[2][1], 1) and at(rt[2][2], 2)
     ctx.check(good, 'R11.g', 'compare_at_pos', cb2, cb2.loc(0), 'compare_at_pos(x, y) = cmp(nodes[heap[x]], nodes[heap[y]])', 'compare_at_pos returns %s' % M.show(rt)[:200])
-    pr = ctx.body(ND, 'process_action')
+    # dispatch (process_action, inlined): bubble_up only ever receives the payload of an Action::BubbleUp (or an id handed over directly),
+    # bubble_down that of an Action::BubbleDown
+    pr = pb
     good = True
     _, ainfo = ctx.F.adt('no_duplicate::Action')
     avariants = [v['name'] for v in (ainfo or {}).get('variants', [])]
     ndisp = 0
     for (var, fn) in (('BubbleUp', 'bubble_up'), ('BubbleDown', 'bubble_down')):
-        if var not in avariants:
-            continue        # an action nobody can request any more (its callers call the routine directly: checked where they do)
-        ndisp += 1
-        cs = pr.calls_to(fn)
-        ok, cut, bad_ = M.guarded(pr, [pr.term_point(bb) for (bb, t) in cs], lambda atoms, lit, var=var: any(a_[0] == 'in' and a_[2] == frozenset([var]) for a_ in atoms))
-        good = good and len(cs) == 1 and ok
-    good = good and ndisp >= 1
-    ctx.check(good, 'R11.c', 'process_action', pr, pr.loc(0), 'process_action dispatches BubbleUp -> bubble_up, BubbleDown -> bubble_down', 'process_action does not dispatch the actions to the matching routine')
+        for body_ in (pb, qb):
+            for (bb_, t_) in body_.calls_to(fn):
+                ndisp += 1
+                arg_ = body_.origin.operand(t_['args'][1], body_.term_point(bb_))
+                # the pattern that binds the payload decides: every Action downcast in the argument is a downcast to `var` (an aggregate
+                # of another variant under it is the value of an infeasible path of the path-insensitive origin term)
+                vs_ = set(x[2] for x in M.walk(arg_) if isinstance(x, tuple) and x and x[0] == 'variant' and x[2] in avariants)
+                good = good and vs_ <= {var}
+    good = good and ndisp >= 2
+    ctx.check(good, 'R11.c', 'process_action', pr, pr.loc(0), 'the requested action is dispatched to the matching routine: BubbleUp -> bubble_up, BubbleDown -> bubble_down', 'an Action is dispatched to the wrong routine (BubbleUp must reach bubble_up, BubbleDown bubble_down)')
 
 
 def _ord_name(t):
